@@ -7,8 +7,10 @@
   oracle only), with no row written at or below `Screen.height` (`WF`):
 
     diff_confined, no_scroll, diff_correct, diff_done            one call of `_output_screen_diff`
-    render_seq, render_seq_last, incremental_eq_scratch           any sequence of render / done / erase / clear
-    done_full_height_scrolls, wf_needed                           the stated exception; why `WF`
+    render_seq, render_seq_last, incremental_eq_scratch           any sequence of render / done / erase / clear,
+                                                                  every render with its own style and COLOUR DEPTH
+    done_full_height_scrolls, wf_needed, depth_needed             the stated exception; why `WF`; why the depth
+                                                                  belongs to the repaint test
 
   Lemmas: `Ptk.Props.C06Lemmas` (pieces of the differ), `Ptk.Props.C06Diff` (`diff_master`).
   More:   `Ptk.Props.C06Scroll` (`diff_done_scroll`: the exception in general),
@@ -27,8 +29,9 @@ structure DiffOk (e : Env) (s : Screen) (pos : Point) (prev : Option Screen) (la
     (isDone : Bool) (pw : Nat) (T : Term) : Prop where
   /-- a space is one column wide (runtime `wcwidth`) -/
   space : cw ' ' = 1
-  /-- the default char's style has no colour / underline … (it is never counted as content) -/
-  hdef : (e.attrsOf 1).hasStyle = false
+  /-- the default char's style has no colour / underline … (it is never counted as content); displaying
+      attributes at a colour depth adds none -/
+  hdef : EnvOk e
   narrow : Narrow cw s
   wf : WF s
   /-- cursor belief, SGR belief, autowrap still off in full-screen mode -/
@@ -116,12 +119,21 @@ theorem diff_done (e : Env) (s : Screen) (pos : Point) (prev : Option Screen) (l
 
 /-! ### sequences of renders -/
 
-/-- the operations of a renderer at a fixed terminal size -/
+/-- the environment of one render: the style / style transformation (interned hash `key`) and the colour
+    depth `app.color_depth` may change from one render to the next -/
+def envFor (e : Env) (key depth : Nat) : Env := { e with key := key, depth := depth }
+
+@[simp] theorem envFor_w (e : Env) (k d : Nat) : (envFor e k d).w = e.w := rfl
+@[simp] theorem envFor_h (e : Env) (k d : Nat) : (envFor e k d).h = e.h := rfl
+@[simp] theorem envFor_fs (e : Env) (k d : Nat) : (envFor e k d).fullScreen = e.fullScreen := rfl
+
+/-- the operations of a renderer at a fixed terminal size; every render has its own style key and
+    colour depth -/
 inductive ROp
   /-- `render(app, layout)` where the layout produces `s` -/
-  | render (s : Screen) (mouse : Bool) (key shape : Nat)
+  | render (s : Screen) (mouse : Bool) (key depth shape : Nat)
   /-- `render(app, layout, is_done=True)`; the next prompt starts on the cursor line -/
-  | finish (s : Screen) (mouse : Bool) (key shape : Nat)
+  | finish (s : Screen) (mouse : Bool) (key depth shape : Nat)
   /-- `erase(leave_alternate_screen)` -/
   | erase (leaveAlt : Bool)
   /-- `clear()`: erase, then erase the whole display and home the cursor -/
@@ -130,8 +142,10 @@ inductive ROp
 /-- one operation: new renderer state, and the terminal after executing the emitted calls
     (after a `done` render the origin moves to the cursor row: `Term.rebase`) -/
 def stepR (e : Env) (R : RState) (T : Term) : ROp → RState × Term
-  | .render s m k sh => ((R.render e s false m k sh).1, exec cw T (R.render e s false m k sh).2)
-  | .finish s m k sh => ((R.render e s true m k sh).1, (exec cw T (R.render e s true m k sh).2).rebase)
+  | .render s m k d sh =>
+    ((R.render (envFor e k d) s false m k sh).1, exec cw T (R.render (envFor e k d) s false m k sh).2)
+  | .finish s m k d sh =>
+    ((R.render (envFor e k d) s true m k sh).1, (exec cw T (R.render (envFor e k d) s true m k sh).2).rebase)
   | .erase la => ((R.erase la).1, exec cw T (R.erase la).2)
   | .clear => (R.clear.1, exec cw T R.clear.2)
 
@@ -142,9 +156,9 @@ def runR (e : Env) : RState → Term → List ROp → RState × Term
 /-- what the layout must guarantee for an operation in the current state: width-1 cells, no row
     written below `height`, cursor inside the terminal, the drawn rows fit below the origin -/
 def OpOk (e : Env) (R : RState) (T : Term) : ROp → Prop
-  | .render s _ _ _ => Narrow cw s ∧ WF s ∧ s.cursor.x < e.w ∧ s.cursor.y < T.h ∧
+  | .render s _ _ _ _ => Narrow cw s ∧ WF s ∧ s.cursor.x < e.w ∧ s.cursor.y < T.h ∧
       min (max s.height (prevHeight R.lastScreen)) e.h ≤ T.h
-  | .finish s _ _ _ => Narrow cw s ∧ WF s ∧ min s.height e.h < T.h ∧
+  | .finish s _ _ _ _ => Narrow cw s ∧ WF s ∧ min s.height e.h < T.h ∧
       min (max s.height (prevHeight R.lastScreen)) e.h ≤ T.h
   | .erase _ => True
   | .clear => True
@@ -153,8 +167,8 @@ def RunOk (e : Env) : RState → Term → List ROp → Prop
   | _, _, [] => True
   | R, T, op :: ops => OpOk cw e R T op ∧ RunOk e (stepR cw e R T op).1 (stepR cw e R T op).2 ops
 
-/-- the renderer's state agrees with the terminal: the terminal shows `_last_screen`, its cursor is at
-    `_cursor_pos`, attributes are reset -/
+/-- the renderer's state agrees with the terminal: the terminal shows `_last_screen` as displayed under the
+    style and at the colour depth of the last render, its cursor is at `_cursor_pos`, attributes are reset -/
 structure RInv (e : Env) (R : RState) (T : Term) : Prop where
   w : T.w = e.w
   wpos : 0 < e.w
@@ -167,8 +181,8 @@ structure RInv (e : Env) (R : RState) (T : Term) : Prop where
   sgr : T.sgr = Attrs.dflt
   last : R.lastStyle = none
   aw : e.fullScreen = true → R.lastScreen.isSome = true → T.autowrap = false
-  shown : ∀ ps, R.lastScreen = some ps →
-    Shows e T ps ∧ NoCont T ∧ WF ps ∧ R.lastSize = some (e.h, e.w)
+  shown : ∀ ps, R.lastScreen = some ps → ∃ k d, R.styleKey = some k ∧ R.lastDepth = some d ∧
+    Shows (envFor e k d) T ps ∧ NoCont T ∧ WF ps ∧ R.lastSize = some (e.h, e.w)
 
 /-- calls without effect on the terminal model -/
 def Cmd.inert : Cmd → Bool
@@ -242,94 +256,110 @@ theorem prevHeight_prevFor (e : Env) (R : RState) (k : Nat) :
   rcases prevFor_cases e R k with h | h <;> rw [h] <;> simp [prevHeight]
 
 /-- the renderer invariant provides the differ's preconditions -/
-theorem diffOk_of_inv (e : Env) (R : RState) (T : Term) (s : Screen) (isDone : Bool) (k : Nat)
-    (h1 : cw ' ' = 1) (hdef : (e.attrsOf 1).hasStyle = false) (inv : RInv e R T)
+theorem prevFor_some (e : Env) (R : RState) (key : Nat) (ps : Screen) (h : R.prevFor e key = some ps) :
+    R.lastScreen = some ps ∧ R.styleKey = some key ∧ R.lastDepth = some e.depth := by
+  unfold RState.prevFor at h
+  split at h
+  · cases h
+  · rename_i hk
+    split at h
+    · cases h
+    · simp only [Bool.or_eq_true, bne_iff_ne, ne_eq, not_or, Decidable.not_not] at hk
+      exact ⟨h, hk.1, hk.2⟩
+
+/-- the renderer invariant provides the differ's preconditions for a render under style `k` at depth `d` -/
+theorem diffOk_of_inv (e : Env) (R : RState) (T : Term) (s : Screen) (isDone : Bool) (k d : Nat)
+    (h1 : cw ' ' = 1) (hdef : EnvOk (envFor e k d)) (inv : RInv e R T)
     (hn : Narrow cw s) (wfs : WF s)
     (hfit : min (max s.height (prevHeight R.lastScreen)) e.h ≤ T.h)
     (htgt : (if isDone then min s.height e.h else s.cursor.y) < T.h) :
-    DiffOk cw e s R.pos (R.prevFor e k) R.lastStyle isDone R.prevWidth T := by
-  refine ⟨h1, hdef, hn, wfs, ⟨inv.w, inv.wpos, inv.row, ?_, inv.rowlt, ?_, ?_⟩, ?_, ?_, (by have := inv.tot; omega), htgt⟩
-  · rw [inv.col]; have := inv.posx; omega
+    DiffOk cw (envFor e k d) s R.pos (R.prevFor (envFor e k d) k) R.lastStyle isDone R.prevWidth T := by
+  refine ⟨h1, hdef, hn, wfs, ⟨inv.w, inv.wpos, inv.row, ?_, inv.rowlt, ?_, ?_⟩, ?_, ?_,
+    (by have := inv.tot; exact Nat.le_trans (Nat.le_add_left _ _) this), htgt⟩
+  · show T.col = min R.pos.x (e.w - 1)
+    rw [inv.col]; have := inv.posx; omega
   · intro hf hs
     apply inv.aw hf
-    rcases prevFor_cases e R k with h | h
+    rcases prevFor_cases (envFor e k d) R k with h | h
     · rw [h] at hs; cases hs
     · rw [h] at hs; exact hs
   · rw [inv.last]; exact inv.sgr
   · intro ps hps _
-    rcases prevFor_cases e R k with h | h
-    · rw [h] at hps; cases hps
-    · rw [h] at hps
-      obtain ⟨a, b, c, _⟩ := inv.shown ps hps
-      exact ⟨a, b, c⟩
-  · have := prevHeight_prevFor e R k
+    obtain ⟨hl, hk, hd⟩ := prevFor_some (envFor e k d) R k ps hps
+    obtain ⟨k', d', hk', hd', a, b, c, _⟩ := inv.shown ps hl
+    rw [hk] at hk'; rw [hd] at hd'
+    cases hk'; cases hd'
+    exact ⟨a, b, c⟩
+  · have := prevHeight_prevFor (envFor e k d) R k
+    show min (max s.height (prevHeight (R.prevFor (envFor e k d) k))) e.h ≤ T.h
     omega
 
-theorem render_step (e : Env) (R : RState) (T : Term) (s : Screen) (m : Bool) (k sh : Nat)
-    (h1 : cw ' ' = 1) (hdef : (e.attrsOf 1).hasStyle = false)
-    (inv : RInv e R T) (ok : OpOk cw e R T (.render s m k sh)) :
-    RInv e (stepR cw e R T (.render s m k sh)).1 (stepR cw e R T (.render s m k sh)).2 ∧
-    Rendered e (stepR cw e R T (.render s m k sh)).2 s := by
+theorem render_step (e : Env) (R : RState) (T : Term) (s : Screen) (m : Bool) (k d sh : Nat)
+    (h1 : cw ' ' = 1) (hdef : EnvOk (envFor e k d))
+    (inv : RInv e R T) (ok : OpOk cw e R T (.render s m k d sh)) :
+    RInv e (stepR cw e R T (.render s m k d sh)).1 (stepR cw e R T (.render s m k d sh)).2 ∧
+    Rendered (envFor e k d) (stepR cw e R T (.render s m k d sh)).2 s := by
   obtain ⟨hn, wfs, hcx, hcy, hfit⟩ := ok
-  have dok := diffOk_of_inv cw e R T s false k h1 hdef inv hn wfs hfit (by simpa using hcy)
-  obtain ⟨rd, hpos, hlast⟩ := diff_correct cw e s R.pos (R.prevFor e k) R.lastStyle R.prevWidth T dok
-  have hsame := no_scroll cw e s R.pos (R.prevFor e k) R.lastStyle false R.prevWidth T dok
-  obtain ⟨a, b, ha, hb, hc⟩ := render_cmds e R s false m k sh
-  have hT : (stepR cw e R T (.render s m k sh)).2 =
-      exec cw T (diff e s R.pos (R.prevFor e k) R.lastStyle false R.prevWidth).cmds := by
+  have dok := diffOk_of_inv cw e R T s false k d h1 hdef inv hn wfs hfit (by simpa using hcy)
+  obtain ⟨rd, hpos, hlast⟩ := diff_correct cw (envFor e k d) s R.pos (R.prevFor (envFor e k d) k) R.lastStyle R.prevWidth T dok
+  have hsame := no_scroll cw (envFor e k d) s R.pos (R.prevFor (envFor e k d) k) R.lastStyle false R.prevWidth T dok
+  obtain ⟨a, b, ha, hb, hc⟩ := render_cmds (envFor e k d) R s false m k sh
+  have hT : (stepR cw e R T (.render s m k d sh)).2 =
+      exec cw T (diff (envFor e k d) s R.pos (R.prevFor (envFor e k d) k) R.lastStyle false R.prevWidth).cmds := by
     simp only [stepR, hc, Bool.false_eq_true, if_false, List.append_nil]
     rw [exec_append, exec_inert cw T a ha, exec_append, exec_inert cw _ b hb]
-  have hR : (stepR cw e R T (.render s m k sh)).1 =
-      R.rendered e s m k sh (diff e s R.pos (R.prevFor e k) R.lastStyle false R.prevWidth) := by
+  have hR : (stepR cw e R T (.render s m k d sh)).1 =
+      R.rendered (envFor e k d) s m k sh (diff (envFor e k d) s R.pos (R.prevFor (envFor e k d) k) R.lastStyle false R.prevWidth) := by
     simp [stepR, RState.render]
   rw [hT, hR]
   simp only [RState.rendered]
   refine ⟨⟨rd.w, inv.wpos, ?_, ?_, ?_, ?_, ?_, rd.sgr, hlast, ?_, ?_⟩, rd⟩
   · simp only [hpos]; exact rd.row
-  · simp only [hpos]; rw [rd.col]; omega
+  · simp only [hpos]; rw [rd.col, envFor_w]; omega
   · simp only [hpos]; exact hcx
   · rw [rd.row, hsame.2.2.1]; exact hcy
   · rw [hsame.2.2.1, hsame.2.2.2]; exact inv.tot
-  · intro hf _; rw [rd.autowrap, hf]; rfl
+  · intro hf _; rw [rd.autowrap, envFor_fs, hf]; rfl
   · intro ps hps
     simp only [Option.some.injEq] at hps
     subst hps
-    exact ⟨rd.shows, rd.nocont, wfs, rfl⟩
+    exact ⟨k, d, rfl, rfl, rd.shows, rd.nocont, wfs, rfl⟩
 
 theorem reset_state (R : RState) (sc la : Bool) :
     (R.reset sc la).1.pos = ⟨0, 0⟩ ∧ (R.reset sc la).1.lastScreen = none ∧
     (R.reset sc la).1.lastStyle = none := by
   simp [RState.reset]
 
-theorem finish_step (e : Env) (R : RState) (T : Term) (s : Screen) (m : Bool) (k sh : Nat)
-    (h1 : cw ' ' = 1) (hdef : (e.attrsOf 1).hasStyle = false)
-    (inv : RInv e R T) (ok : OpOk cw e R T (.finish s m k sh)) :
-    RInv e (stepR cw e R T (.finish s m k sh)).1 (stepR cw e R T (.finish s m k sh)).2 ∧
-    (stepR cw e R T (.finish s m k sh)).2.visible = true ∧
-    (stepR cw e R T (.finish s m k sh)).2.autowrap = true ∧
-    (∀ y x, (stepR cw e R T (.finish s m k sh)).2.cells y x = TCell.blank) := by
+theorem finish_step (e : Env) (R : RState) (T : Term) (s : Screen) (m : Bool) (k d sh : Nat)
+    (h1 : cw ' ' = 1) (hdef : EnvOk (envFor e k d))
+    (inv : RInv e R T) (ok : OpOk cw e R T (.finish s m k d sh)) :
+    RInv e (stepR cw e R T (.finish s m k d sh)).1 (stepR cw e R T (.finish s m k d sh)).2 ∧
+    (stepR cw e R T (.finish s m k d sh)).2.visible = true ∧
+    (stepR cw e R T (.finish s m k d sh)).2.autowrap = true ∧
+    (∀ y x, (stepR cw e R T (.finish s m k d sh)).2.cells y x = TCell.blank) := by
   obtain ⟨hn, wfs, hcy, hfit⟩ := ok
-  have dok := diffOk_of_inv cw e R T s true k h1 hdef inv hn wfs hfit (by simpa using hcy)
-  obtain ⟨_, d2, d3, d4, d5, d6⟩ := diff_done cw e s R.pos (R.prevFor e k) R.lastStyle R.prevWidth T dok
-  have hsame := no_scroll cw e s R.pos (R.prevFor e k) R.lastStyle true R.prevWidth T dok
-  have hw := (diff_master cw e s R.pos (R.prevFor e k) R.lastStyle true R.prevWidth T dok.space dok.hdef
+  have dok := diffOk_of_inv cw e R T s true k d h1 hdef inv hn wfs hfit (by simpa using hcy)
+  obtain ⟨_, d2, d3, d4, d5, d6⟩ := diff_done cw (envFor e k d) s R.pos (R.prevFor (envFor e k d) k) R.lastStyle R.prevWidth T dok
+  simp only [envFor_h] at d2 d3
+  have hsame := no_scroll cw (envFor e k d) s R.pos (R.prevFor (envFor e k d) k) R.lastStyle true R.prevWidth T dok
+  have hw := (diff_master cw (envFor e k d) s R.pos (R.prevFor (envFor e k d) k) R.lastStyle true R.prevWidth T dok.space dok.hdef
     dok.narrow dok.wf dok.pre dok.shown dok.fit dok.rows dok.tgt).1.2.2.2.2.1
-  obtain ⟨a, b, ha, hb, hc⟩ := render_cmds e R s true m k sh
-  have hT : (stepR cw e R T (.finish s m k sh)).2 =
-      ({ exec cw T (diff e s R.pos (R.prevFor e k) R.lastStyle true R.prevWidth).cmds with
+  obtain ⟨a, b, ha, hb, hc⟩ := render_cmds (envFor e k d) R s true m k sh
+  have hT : (stepR cw e R T (.finish s m k d sh)).2 =
+      ({ exec cw T (diff (envFor e k d) s R.pos (R.prevFor (envFor e k d) k) R.lastStyle true R.prevWidth).cmds with
           visible := true } : Term).rebase := by
     simp only [stepR, hc, if_true]
     rw [exec_append, exec_inert cw T a ha, exec_append, exec_append, exec_inert cw _ b hb, exec_reset]
-  have hR : (stepR cw e R T (.finish s m k sh)).1 =
-      ((R.rendered e s m k sh (diff e s R.pos (R.prevFor e k) R.lastStyle true R.prevWidth)).reset
+  have hR : (stepR cw e R T (.finish s m k d sh)).1 =
+      ((R.rendered (envFor e k d) s m k sh (diff (envFor e k d) s R.pos (R.prevFor (envFor e k d) k) R.lastStyle true R.prevWidth)).reset
         false true).1 := by
     simp [stepR, RState.render]
   rw [hT, hR]
-  generalize exec cw T (diff e s R.pos (R.prevFor e k) R.lastStyle true R.prevWidth).cmds = Td at *
-  generalize R.rendered e s m k sh (diff e s R.pos (R.prevFor e k) R.lastStyle true R.prevWidth) = R1 at *
+  generalize exec cw T (diff (envFor e k d) s R.pos (R.prevFor (envFor e k d) k) R.lastStyle true R.prevWidth).cmds = Td at *
+  generalize R.rendered (envFor e k d) s m k sh (diff (envFor e k d) s R.pos (R.prevFor (envFor e k d) k) R.lastStyle true R.prevWidth) = R1 at *
   obtain ⟨p1, p2, p3⟩ := reset_state R1 false true
   refine ⟨⟨?_, inv.wpos, ?_, ?_, ?_, ?_, ?_, ?_, p3, ?_, ?_⟩, rfl, ?_, ?_⟩
-  · simpa [Term.rebase] using hw
+  · simpa [Term.rebase, envFor_w] using hw
   · rw [p1]; rfl
   · rw [p1]; simpa [Term.rebase] using d4
   · rw [p1]; exact inv.wpos
@@ -410,18 +440,20 @@ theorem clear_step (e : Env) (R : RState) (T : Term) (inv : RInv e R T) :
   · intro _ h; rw [he, p2] at h; cases h
   · intro ps h; rw [he, p2] at h; cases h
 
-theorem stepR_inv (e : Env) (h1 : cw ' ' = 1) (hdef : (e.attrsOf 1).hasStyle = false)
+theorem stepR_inv (e : Env) (h1 : cw ' ' = 1) (hdef : ∀ k d, EnvOk (envFor e k d))
     (R : RState) (T : Term) (op : ROp) (inv : RInv e R T) (ok : OpOk cw e R T op) :
     RInv e (stepR cw e R T op).1 (stepR cw e R T op).2 := by
   cases op with
-  | render s m k sh => exact (render_step cw e R T s m k sh h1 hdef inv ok).1
-  | finish s m k sh => exact (finish_step cw e R T s m k sh h1 hdef inv ok).1
+  | render s m k d sh => exact (render_step cw e R T s m k d sh h1 (hdef k d) inv ok).1
+  | finish s m k d sh => exact (finish_step cw e R T s m k d sh h1 (hdef k d) inv ok).1
   | erase la => exact (erase_step cw e R T la inv).1
   | clear => exact (clear_step cw e R T inv).1
 
-/-- **render_seq** — the invariant "the terminal shows `_last_screen`, the cursor is at `_cursor_pos`,
-    attributes are reset" is carried over every finite sequence of renders, done-renders and erases. -/
-theorem render_seq (e : Env) (h1 : cw ' ' = 1) (hdef : (e.attrsOf 1).hasStyle = false) :
+/-- **render_seq** — the invariant "the terminal shows `_last_screen` (as displayed under the style and at the
+    colour depth of the last render), the cursor is at `_cursor_pos`, attributes are reset" is carried over
+    every finite sequence of renders, done-renders, erases and clears, where EVERY render may use another
+    style / style transformation (`key`) and another colour depth. -/
+theorem render_seq (e : Env) (h1 : cw ' ' = 1) (hdef : ∀ k d, EnvOk (envFor e k d)) :
     ∀ (ops : List ROp) (R : RState) (T : Term), RInv e R T → RunOk cw e R T ops →
       RInv e (runR cw e R T ops).1 (runR cw e R T ops).2 := by
   intro ops
@@ -451,71 +483,72 @@ theorem runOk_append (e : Env) : ∀ (a b : List ROp) (R : RState) (T : Term),
 
 /-- after any sequence of operations that ends with a render of `s`, the terminal shows `s`, the cursor
     is on `s.cursor`, attributes are reset, the cursor is visible iff `s.showCursor` -/
-theorem render_seq_last (e : Env) (h1 : cw ' ' = 1) (hdef : (e.attrsOf 1).hasStyle = false)
-    (ops : List ROp) (R : RState) (T : Term) (s : Screen) (m : Bool) (k sh : Nat)
-    (inv : RInv e R T) (ok : RunOk cw e R T (ops ++ [.render s m k sh])) :
-    Rendered e (runR cw e R T (ops ++ [.render s m k sh])).2 s := by
+theorem render_seq_last (e : Env) (h1 : cw ' ' = 1) (hdef : ∀ k d, EnvOk (envFor e k d))
+    (ops : List ROp) (R : RState) (T : Term) (s : Screen) (m : Bool) (k d sh : Nat)
+    (inv : RInv e R T) (ok : RunOk cw e R T (ops ++ [.render s m k d sh])) :
+    Rendered (envFor e k d) (runR cw e R T (ops ++ [.render s m k d sh])).2 s := by
   obtain ⟨o1, o2⟩ := runOk_append cw e ops _ R T ok
   have inv' := render_seq cw e h1 hdef ops R T inv o1
   rw [runR_append]
-  exact (render_step cw e _ _ s m k sh h1 hdef inv' o2.1).2
+  exact (render_step cw e _ _ s m k d sh h1 (hdef k d) inv' o2.1).2
 
-/-- **incremental_eq_scratch** — the terminal after any sequence of operations ending with a render of
-    `s` is visibly identical (cells of the owned rows, cursor position, cursor visibility, SGR state,
+/-- **incremental_eq_scratch** — the terminal after any sequence of operations (styles and colour depths
+    changing at will between the renders) ending with a render of `s` under style `k` at depth `d` is visibly
+    identical (cells of the owned rows, cursor position, cursor visibility, SGR state,
     autowrap) to a terminal of the same geometry with arbitrary previous contents on which `s` is drawn
     from scratch (first render: `previous_screen = None`, cursor on the origin). -/
-theorem incremental_eq_scratch (e : Env) (h1 : cw ' ' = 1) (hdef : (e.attrsOf 1).hasStyle = false)
-    (ops : List ROp) (R : RState) (T : Term) (s : Screen) (m : Bool) (k sh : Nat)
-    (inv : RInv e R T) (ok : RunOk cw e R T (ops ++ [.render s m k sh]))
+theorem incremental_eq_scratch (e : Env) (h1 : cw ' ' = 1) (hdef : ∀ k d, EnvOk (envFor e k d))
+    (ops : List ROp) (R : RState) (T : Term) (s : Screen) (m : Bool) (k d sh : Nat)
+    (inv : RInv e R T) (ok : RunOk cw e R T (ops ++ [.render s m k d sh]))
     (junk : Nat → Nat → TCell) :
-    (∀ y x, y < (runR cw e R T (ops ++ [.render s m k sh])).2.h → x < e.w →
-      ((runR cw e R T (ops ++ [.render s m k sh])).2.cells y x).norm =
-      ((exec cw (Term.fresh e.w (runR cw e R T (ops ++ [.render s m k sh])).2.h 0 junk)
-          (diff e s ⟨0, 0⟩ none none false 0).cmds).cells y x).norm) ∧
-    (runR cw e R T (ops ++ [.render s m k sh])).2.row =
-      (exec cw (Term.fresh e.w (runR cw e R T (ops ++ [.render s m k sh])).2.h 0 junk)
-          (diff e s ⟨0, 0⟩ none none false 0).cmds).row ∧
-    (runR cw e R T (ops ++ [.render s m k sh])).2.col =
-      (exec cw (Term.fresh e.w (runR cw e R T (ops ++ [.render s m k sh])).2.h 0 junk)
-          (diff e s ⟨0, 0⟩ none none false 0).cmds).col ∧
-    (runR cw e R T (ops ++ [.render s m k sh])).2.visible =
-      (exec cw (Term.fresh e.w (runR cw e R T (ops ++ [.render s m k sh])).2.h 0 junk)
-          (diff e s ⟨0, 0⟩ none none false 0).cmds).visible ∧
-    (runR cw e R T (ops ++ [.render s m k sh])).2.sgr =
-      (exec cw (Term.fresh e.w (runR cw e R T (ops ++ [.render s m k sh])).2.h 0 junk)
-          (diff e s ⟨0, 0⟩ none none false 0).cmds).sgr ∧
-    (runR cw e R T (ops ++ [.render s m k sh])).2.autowrap =
-      (exec cw (Term.fresh e.w (runR cw e R T (ops ++ [.render s m k sh])).2.h 0 junk)
-          (diff e s ⟨0, 0⟩ none none false 0).cmds).autowrap := by
-  have rd := render_seq_last cw e h1 hdef ops R T s m k sh inv ok
+    (∀ y x, y < (runR cw e R T (ops ++ [.render s m k d sh])).2.h → x < e.w →
+      ((runR cw e R T (ops ++ [.render s m k d sh])).2.cells y x).norm =
+      ((exec cw (Term.fresh e.w (runR cw e R T (ops ++ [.render s m k d sh])).2.h 0 junk)
+          (diff (envFor e k d) s ⟨0, 0⟩ none none false 0).cmds).cells y x).norm) ∧
+    (runR cw e R T (ops ++ [.render s m k d sh])).2.row =
+      (exec cw (Term.fresh e.w (runR cw e R T (ops ++ [.render s m k d sh])).2.h 0 junk)
+          (diff (envFor e k d) s ⟨0, 0⟩ none none false 0).cmds).row ∧
+    (runR cw e R T (ops ++ [.render s m k d sh])).2.col =
+      (exec cw (Term.fresh e.w (runR cw e R T (ops ++ [.render s m k d sh])).2.h 0 junk)
+          (diff (envFor e k d) s ⟨0, 0⟩ none none false 0).cmds).col ∧
+    (runR cw e R T (ops ++ [.render s m k d sh])).2.visible =
+      (exec cw (Term.fresh e.w (runR cw e R T (ops ++ [.render s m k d sh])).2.h 0 junk)
+          (diff (envFor e k d) s ⟨0, 0⟩ none none false 0).cmds).visible ∧
+    (runR cw e R T (ops ++ [.render s m k d sh])).2.sgr =
+      (exec cw (Term.fresh e.w (runR cw e R T (ops ++ [.render s m k d sh])).2.h 0 junk)
+          (diff (envFor e k d) s ⟨0, 0⟩ none none false 0).cmds).sgr ∧
+    (runR cw e R T (ops ++ [.render s m k d sh])).2.autowrap =
+      (exec cw (Term.fresh e.w (runR cw e R T (ops ++ [.render s m k d sh])).2.h 0 junk)
+          (diff (envFor e k d) s ⟨0, 0⟩ none none false 0).cmds).autowrap := by
+  have rd := render_seq_last cw e h1 hdef ops R T s m k d sh inv ok
   obtain ⟨o1, o2⟩ := runOk_append cw e ops _ R T ok
   have inv' := render_seq cw e h1 hdef ops R T inv o1
   have invF := render_seq cw e h1 hdef _ R T inv ok
   obtain ⟨hn, wfs, hcx, hcy, hfit⟩ := o2.1
   -- the geometry is not changed by the last render
-  have hh : (runR cw e R T (ops ++ [.render s m k sh])).2.h = (runR cw e R T ops).2.h := by
+  have hh : (runR cw e R T (ops ++ [.render s m k d sh])).2.h = (runR cw e R T ops).2.h := by
     rw [runR_append]
-    have dok := diffOk_of_inv cw e _ _ s false k h1 hdef inv' hn wfs hfit (by simpa using hcy)
-    have hs := no_scroll cw e s _ _ _ false _ _ dok
-    obtain ⟨a, b, ha, hb, hc⟩ := render_cmds e (runR cw e R T ops).1 s false m k sh
-    show (exec cw _ ((runR cw e R T ops).1.render e s false m k sh).2).h = _
+    have dok := diffOk_of_inv cw e _ _ s false k d h1 (hdef k d) inv' hn wfs hfit (by simpa using hcy)
+    have hs := no_scroll cw (envFor e k d) s _ _ _ false _ _ dok
+    obtain ⟨a, b, ha, hb, hc⟩ := render_cmds (envFor e k d) (runR cw e R T ops).1 s false m k sh
+    show (exec cw _ ((runR cw e R T ops).1.render (envFor e k d) s false m k sh).2).h = _
     rw [hc]
     simp only [Bool.false_eq_true, if_false, List.append_nil]
     rw [exec_append, exec_inert cw _ a ha, exec_append, exec_inert cw _ b hb]
     exact hs.2.2.1
-  generalize (runR cw e R T (ops ++ [.render s m k sh])).2 = Ti at *
-  have dok0 : DiffOk cw e s ⟨0, 0⟩ none none false 0 (Term.fresh e.w Ti.h 0 junk) := by
-    refine ⟨h1, hdef, hn, wfs, ⟨rfl, invF.wpos, rfl, by simp [Term.fresh], ?_, ?_, rfl⟩, ?_, ?_, ?_, ?_⟩
+  generalize (runR cw e R T (ops ++ [.render s m k d sh])).2 = Ti at *
+  have dok0 : DiffOk cw (envFor e k d) s ⟨0, 0⟩ none none false 0 (Term.fresh e.w Ti.h 0 junk) := by
+    refine ⟨h1, hdef k d, hn, wfs, ⟨rfl, invF.wpos, rfl, by simp [Term.fresh], ?_, ?_, rfl⟩, ?_, ?_, ?_, ?_⟩
     · have := invF.rowlt; simp only [Term.fresh]; omega
     · intro _ h; cases h
     · intro ps h; cases h
-    · simp only [Term.fresh, prevHeight]; rw [hh]
+    · simp only [Term.fresh, prevHeight, envFor_h]; rw [hh]
       have : prevHeight (runR cw e R T ops).1.lastScreen ≥ 0 := Nat.zero_le _
       omega
-    · simp only [Term.fresh]; have := invF.tot; omega
+    · simp only [Term.fresh, envFor_h]; have := invF.tot; omega
     · simp only [Term.fresh, Bool.false_eq_true, if_false]; rw [hh]; exact hcy
-  obtain ⟨rs, _, _⟩ := diff_correct cw e s ⟨0, 0⟩ none none 0 _ dok0
-  have hsame := no_scroll cw e s ⟨0, 0⟩ none none false 0 _ dok0
+  obtain ⟨rs, _, _⟩ := diff_correct cw (envFor e k d) s ⟨0, 0⟩ none none 0 _ dok0
+  have hsame := no_scroll cw (envFor e k d) s ⟨0, 0⟩ none none false 0 _ dok0
   refine ⟨?_, ?_, ?_, ?_, ?_, ?_⟩
   · intro y x hy hx
     rw [rd.shows y x hy hx, rs.shows y x (by rw [hsame.2.2.1]; exact hy) hx]
@@ -535,8 +568,22 @@ def cw1 : Char → Nat := fun _ => 1
 def exAttrs : Nat → Attrs := fun i =>
   if i = 2 then { Attrs.dflt with bg := ['r', 'e', 'd'] } else Attrs.dflt
 
-/-- 3 columns, 3 rows, inline mode -/
-def exEnv : Env := ⟨3, 3, false, exAttrs⟩
+/-- an encoder that drops the colours at depth 1 (monochrome) and keeps everything otherwise -/
+def exEnc : Nat → Attrs → Attrs := fun d a => if d = 1 then { a with fg := [], bg := [] } else a
+
+/-- 3 columns, 3 rows, inline mode, 8-bit colours -/
+def exEnv : Env := ⟨3, 3, false, fun _ => exAttrs, 0, 8, exEnc⟩
+
+theorem exEnvOk : ∀ k d, EnvOk (envFor exEnv k d) := by
+  intro k d
+  refine ⟨rfl, ?_⟩
+  intro a ha
+  show (exEnc d a).hasStyle = false
+  unfold exEnc
+  split
+  · simp only [Attrs.hasStyle, Bool.or_eq_false_iff] at ha ⊢
+    simp [ha.1.1.1.2, ha.1.1.2, ha.1.2, ha.2]
+  · exact ha
 /-- `ab` on one row, cursor after it -/
 def exS1 : Screen := ⟨[[⟨['a'], 0, 1⟩, ⟨['b'], 0, 1⟩]], [], 1, ⟨2, 0⟩, true⟩
 /-- `a` / a red blank: the first row shrinks, a second row appears, the cursor moves down -/
@@ -566,17 +613,17 @@ theorem exInv : RInv exEnv exR0 exT0 :=
   ⟨rfl, by decide, rfl, rfl, by decide, by decide, by decide, rfl, rfl,
    (fun h _ => by cases h), (fun ps h => by cases h)⟩
 
-def exOps : List ROp := [.render exS1 false 0 0, .render exS2 false 0 0]
+def exOps : List ROp := [.render exS1 false 0 8 0, .render exS2 false 0 8 0]
 
-theorem exOk : RunOk cw1 exEnv exR0 exT0 (exOps ++ [.render exS1 false 0 0]) := by
+theorem exOk : RunOk cw1 exEnv exR0 exT0 (exOps ++ [.render exS1 false 0 8 0]) := by
   refine ⟨⟨narrow_of_check _ (by decide), by unfold WF; decide, by decide, by decide, by decide⟩,
     ⟨narrow_of_check _ (by decide), by unfold WF; decide, by decide, by decide, by decide⟩,
     ⟨narrow_of_check _ (by decide), by unfold WF; decide, by decide, by decide, by decide⟩, trivial⟩
 
 /-- `render_seq` / `render_seq_last` / `diff_correct` are not vacuous: a first render on a junk
     terminal, an incremental render that shrinks one row and adds another, and a third one -/
-example : Rendered exEnv (runR cw1 exEnv exR0 exT0 (exOps ++ [.render exS1 false 0 0])).2 exS1 :=
-  render_seq_last cw1 exEnv rfl rfl exOps exR0 exT0 exS1 false 0 0 exInv exOk
+example : Rendered exEnv (runR cw1 exEnv exR0 exT0 (exOps ++ [.render exS1 false 0 8 0])).2 exS1 :=
+  render_seq_last cw1 exEnv rfl exEnvOk exOps exR0 exT0 exS1 false 0 8 0 exInv exOk
 
 /-- … and the model really computes what the theorem says: after the second render the red blank is
     on row 1, the `b` of the first screen is gone, the junk is erased -/
@@ -595,21 +642,21 @@ example : Cmd.eraseDown ∉ ((exR0.render exEnv exS1 false false 0 0).1.render e
 
 /-- `finish_step` / `diff_done` are not vacuous: two renders and a done render (the output, 2 rows,
     leaves a free line below it on the 3-row terminal) -/
-theorem exOkDone : RunOk cw1 exEnv exR0 exT0 (exOps ++ [.finish exS2 false 0 0]) := by
+theorem exOkDone : RunOk cw1 exEnv exR0 exT0 (exOps ++ [.finish exS2 false 0 8 0]) := by
   refine ⟨⟨narrow_of_check _ (by decide), by unfold WF; decide, by decide, by decide, by decide⟩,
     ⟨narrow_of_check _ (by decide), by unfold WF; decide, by decide, by decide, by decide⟩,
     ⟨narrow_of_check _ (by decide), by unfold WF; decide, by decide, by decide⟩, trivial⟩
 
-example : RInv exEnv (runR cw1 exEnv exR0 exT0 (exOps ++ [.finish exS2 false 0 0])).1
-    (runR cw1 exEnv exR0 exT0 (exOps ++ [.finish exS2 false 0 0])).2 :=
-  render_seq cw1 exEnv rfl rfl _ exR0 exT0 exInv exOkDone
+example : RInv exEnv (runR cw1 exEnv exR0 exT0 (exOps ++ [.finish exS2 false 0 8 0])).1
+    (runR cw1 exEnv exR0 exT0 (exOps ++ [.finish exS2 false 0 8 0])).2 :=
+  render_seq cw1 exEnv rfl exEnvOk _ exR0 exT0 exInv exOkDone
 
 /-- after the done render the origin is the line below the output: one row is left, cursor on column 0 -/
-example : (runR cw1 exEnv exR0 exT0 (exOps ++ [.finish exS2 false 0 0])).2.h = 1 ∧
-    (runR cw1 exEnv exR0 exT0 (exOps ++ [.finish exS2 false 0 0])).2.top = 2 ∧
-    (runR cw1 exEnv exR0 exT0 (exOps ++ [.finish exS2 false 0 0])).2.col = 0 ∧
-    (runR cw1 exEnv exR0 exT0 (exOps ++ [.finish exS2 false 0 0])).2.autowrap = true ∧
-    (runR cw1 exEnv exR0 exT0 (exOps ++ [.finish exS2 false 0 0])).2.scrolled = 0 := by
+example : (runR cw1 exEnv exR0 exT0 (exOps ++ [.finish exS2 false 0 8 0])).2.h = 1 ∧
+    (runR cw1 exEnv exR0 exT0 (exOps ++ [.finish exS2 false 0 8 0])).2.top = 2 ∧
+    (runR cw1 exEnv exR0 exT0 (exOps ++ [.finish exS2 false 0 8 0])).2.col = 0 ∧
+    (runR cw1 exEnv exR0 exT0 (exOps ++ [.finish exS2 false 0 8 0])).2.autowrap = true ∧
+    (runR cw1 exEnv exR0 exT0 (exOps ++ [.finish exS2 false 0 8 0])).2.scrolled = 0 := by
   decide
 
 /-- a screen as high as the terminal -/
@@ -634,6 +681,36 @@ theorem wf_needed :
     ((exec cw1 (exec cw1 exT0 (diff exEnv exBad ⟨0, 0⟩ none none false 0).cmds)
         (diff exEnv exBad2 ⟨0, 0⟩ (some exBad) none false 3).cmds).cells 1 0).norm ≠
       (tcellOf exEnv.attrsOf (cellAt (exBad2.row 1) 0)).norm := by
+  decide
+
+/-- the colour depth changes between two renders of the same screen: 8 bit, then monochrome -/
+def exOpsDepth : List ROp := [.render exS2 false 0 8 0]
+
+theorem exOkDepth : RunOk cw1 exEnv exR0 exT0 (exOpsDepth ++ [.render exS2 false 0 1 0]) := by
+  refine ⟨⟨narrow_of_check _ (by decide), by unfold WF; decide, by decide, by decide, by decide⟩,
+    ⟨narrow_of_check _ (by decide), by unfold WF; decide, by decide, by decide, by decide⟩, trivial⟩
+
+/-- `render_seq_last` across a depth change: the terminal shows the screen as displayed at the NEW depth -/
+example : Rendered (envFor exEnv 0 1)
+    (runR cw1 exEnv exR0 exT0 (exOpsDepth ++ [.render exS2 false 0 1 0])).2 exS2 :=
+  render_seq_last cw1 exEnv rfl exEnvOk exOpsDepth exR0 exT0 exS2 false 0 1 0 exInv exOkDepth
+
+/-- … the model computes it: the render at the new depth repaints (erase-down), the blank that was red at
+    8 bit is shown without colour -/
+example :
+    (runR cw1 exEnv exR0 exT0 exOpsDepth).2.cells 1 0 = ⟨[' '], exAttrs 2⟩ ∧
+    (runR cw1 exEnv exR0 exT0 (exOpsDepth ++ [.render exS2 false 0 1 0])).2.cells 1 0 = ⟨[' '], Attrs.dflt⟩ ∧
+    Cmd.eraseDown ∈ ((exR0.render exEnv exS2 false false 0 0).1.render (envFor exEnv 0 1) exS2 false false 0 0).2 ∧
+    Cmd.eraseDown ∉ ((exR0.render exEnv exS2 false false 0 0).1.render (envFor exEnv 0 8) exS2 false false 0 0).2 := by
+  decide
+
+/-- **the colour depth must be part of the repaint test**: if the renderer kept the previous screen across
+    a depth change (the differ called with the old screen at the new depth), the unchanged red blank would
+    keep its 8-bit colour, which a from-scratch draw at depth 1 does not show -/
+theorem depth_needed :
+    ((exec cw1 (exec cw1 exT0 (diff exEnv exS2 ⟨0, 0⟩ none none false 0).cmds)
+        (diff (envFor exEnv 0 1) exS2 ⟨1, 1⟩ (some exS2) none false 3).cmds).cells 1 0).norm ≠
+      (tcellOf (envFor exEnv 0 1).attrsOf (cellAt (exS2.row 1) 0)).norm := by
   decide
 end Examples
 end Ptk.C06
